@@ -134,28 +134,34 @@ pub fn dbg01(args: &[String]) {
     }
 }
 
-/// `gv reduce01 <replay.json>`: shrink a C01 violation keeping its signature
+/// `gv reduce <replay.json>`: shrink a violation of an AST-carrying case keeping its signature
 pub fn reduce01(args: &[String]) {
     use crate::lang::ast::Program;
     use crate::lang::print::{print_program, Style};
     use crate::lang::reval::run_reference;
-    use crate::prop::{Prop, Tier, Verdict, WorkerCtx, Build};
+    use crate::prop::{Tier, Verdict, WorkerCtx, Build};
     crate::worker::install_panic_hook();
     let doc: serde_json::Value = serde_json::from_str(&std::fs::read_to_string(&args[0]).unwrap()).unwrap();
     let case = doc["case"].clone();
+    let pid = doc["property"].as_str().unwrap_or("C01").to_string();
+    let prop = crate::props::lookup(&pid).expect("property");
     let prog: Program = serde_json::from_value(case["ast"].clone()).expect("case has no ast");
     let style = Style::from_bits(case["style_bits"].as_u64().unwrap_or(1) as u32);
     let want = doc["signature"].clone();
-    let mk = || crate::props::c01::C01.worker(&WorkerCtx { tier: Tier::Quick, seed: 1, phase: doc["phase"].as_str().unwrap_or("random").to_string(), build: Build::Debug });
+    let mk = || prop.worker(&WorkerCtx { tier: Tier::Quick, seed: 1, phase: doc["phase"].as_str().unwrap_or("random").to_string(), build: Build::Debug });
     let mut w = mk();
+    let needs_expect = case.get("expect").is_some();
     let mut test = |p: &Program| -> bool {
-        let (expect, _, _) = run_reference(p, 300_000, false);
-        if let crate::lang::reval::RefOutcome::Fail(crate::lang::reval::Fail::Stuck(_)) = expect {
-            return false;
-        }
         let mut c = case.clone();
+        if needs_expect {
+            let (expect, _, _) = run_reference(p, 300_000, false);
+            if let crate::lang::reval::RefOutcome::Fail(crate::lang::reval::Fail::Stuck(_)) = expect {
+                return false;
+            }
+            c["expect"] = crate::props::c01::ref_to_json(&expect);
+        }
         c["src"] = serde_json::json!(print_program(p, style));
-        c["expect"] = crate::props::c01::ref_to_json(&expect);
+        c["ast"] = serde_json::to_value(p).unwrap();
         c["gc_stress"] = serde_json::json!(0);
         match crate::worker::guarded(|| w.run(&c)) {
             Ok(r) => r.verdict == Verdict::Violation && r.sig == want,
@@ -170,6 +176,41 @@ pub fn reduce01(args: &[String]) {
         return;
     }
     let red = crate::lang::reduce::reduce(&prog, &mut test, 5000);
-    let (expect, _, _) = run_reference(&red, 300_000, false);
-    println!("signature {}\nreference: {:?}\n{}", want, expect, print_program(&red, style));
+    println!("signature {}\n{}", want, print_program(&red, style));
+    let mut c = case.clone();
+    c["src"] = serde_json::json!(print_program(&red, style));
+    c["ast"] = serde_json::to_value(&red).unwrap();
+    if let Ok(r) = crate::worker::guarded(|| w.run(&c)) {
+        println!("-- {}", r.msg.lines().next().unwrap_or(""));
+    }
+}
+
+/// `gv c05-families`: print each family program once and its unstressed outcome (debug aid)
+pub fn c05_families() {
+    crate::worker::install_panic_hook();
+    for seed in 0..60u64 {
+        let mut rng = crate::rng::Rng::new(seed);
+        let p = crate::props::lookup("C05").unwrap();
+        let mut w = p.worker(&crate::prop::WorkerCtx { tier: crate::prop::Tier::Quick, seed: 1, phase: "alloc-family".into(), build: crate::prop::Build::Debug });
+        let c = w.gen(&mut rng, seed).unwrap();
+        let mut s = Settings::PLAIN;
+        s.prelude = true;
+        s.run_io = true;
+        let vm = vm_with(s);
+        let mut ok = true;
+        for m in c["modules"].as_array().cloned().unwrap_or_default() {
+            if let Err(e) = vm.load_script(m[0].as_str().unwrap(), m[1].as_str().unwrap()) {
+                println!("MODULE {} ERR {}", m[0], e);
+                ok = false;
+            }
+        }
+        if !ok {
+            continue;
+        }
+        let res = vm.run_expr::<gluon::vm::api::OpaqueValue<&gluon::Thread, gluon::vm::api::Hole>>("fam", c["src"].as_str().unwrap()).map(|_| ());
+        match res {
+            Ok(_) => {}
+            Err(e) => println!("=== {} ERR\n{}\n{}", c["family"], c["src"].as_str().unwrap().lines().skip(20).collect::<Vec<_>>().join("\n"), e.to_string().lines().take(14).collect::<Vec<_>>().join("\n")),
+        }
+    }
 }
